@@ -42,6 +42,10 @@ def encode(sc):
 def gen(rng, size='small'):
     n_assets = rng.choice([1, 2, 2, 3, 3, 4])
     assets = list(range(1, n_assets + 1))
+    if rng.random() < 0.25:
+        assets = list(range(0, n_assets))      # ids are arbitrary integers: 0 is a legal asset id (only None is a no-op)
+    # some scenarios live far from the origin (2**28 time units, exact on the 1/8 grid): nothing may depend on the magnitude of the clock
+    base = 0 if rng.random() < 0.85 else (1 << 31)
     n_acts = rng.randint(2, 7)
     mod = rng.choice([1, 2, 3, 3, 5, 1 << 20, 1 << 20])
     fractional = rng.random() < 0.5
@@ -70,7 +74,7 @@ def gen(rng, size='small'):
                 cmds.append(('rel', dt, prio(), rng.choice(assets), act))
             elif r < 0.60:
                 act = rng.randrange(n_acts)
-                cmds.append(('abs', rng.randint(0, 80), prio(), rng.choice(assets), act))
+                cmds.append(('abs', base + rng.randint(0, 80), prio(), rng.choice(assets), act))
             elif r < 0.75:
                 cmds.append(('pause', rng.choice(assets)))
             elif r < 0.90:
@@ -81,13 +85,15 @@ def gen(rng, size='small'):
 
     n_ops = rng.randint(4, 14) if size == 'small' else rng.randint(10, 60)
     ops = []
-    est = 0
+    est = base
+    if base:
+        ops += [('sched', base, prio(), rng.choice(assets), rng.randrange(n_acts)), ('run', base)]
     for _ in range(n_ops):
         r = rng.random()
         if r < 0.40:
             t = est + dts()
             if rng.random() < 0.05:
-                t = max(0, est - rng.randint(1, 10))     # malformed: possibly in the past
+                t = max(0, est - rng.choice([1, 1, 2, 3, 5, 10]))     # malformed: possibly in the past
             ops.append(('sched', t, prio(), rng.choice(assets), rng.randrange(n_acts)))
         elif r < 0.52:
             ops.append(('pause', rng.choice(assets)))
